@@ -26,7 +26,7 @@ TRUSTED = ["foreign nodes (bindnode holders, gendemo) behave as the Node contrac
 RULE = ("values from the structured generator (all nine kinds, int64 boundaries and uint64 above, NaN/Inf/±0, arbitrary byte strings "
         "as keys) x 3 random legal scripts each (entry shortcut vs key+value, key as string or node, AssignNode of basicnode / bindnode / "
         "gendemo nodes at any depth, size hints in [-2^63, 4096]) x prototype (any or the kind's own); every read form dumped for "
-        "every container of the result; distinct = distinct (prototype, value, script); non-trivial = script longer than 12 characters")
+        "every container of the result; plus Reset-and-reuse records (build v1, Reset the same builder, build v2, read the first node again); distinct = distinct (prototype, value, script); non-trivial = script longer than 12 characters")
 
 
 def classify(fs):
@@ -34,6 +34,8 @@ def classify(fs):
         return "probe"
     v = fs[3][:1]
     shape = {"m": "map", "a": "list"}.get(v, "scalar")
+    if fs[1] == "c01r":
+        return "reset:" + shape + ":" + fs[2]
     return shape + ":" + fs[2] + (":assignnode" if "XN" in fs[4] else "")
 
 
@@ -46,4 +48,6 @@ def nontrivial(fs):
 def input_key(fs):
     if fs[1] == "probe":
         return fs[2]
+    if fs[1] == "c01r":
+        return "\t".join(fs[1:7])
     return "\t".join(fs[2:5])
